@@ -504,6 +504,9 @@ impl FileStateMachine {
         let mut pos = 0;
         let mut operations = Vec::new();
         let mut replayed_count = 0;
+        // Highest (index, term) found in the WAL: the data recovered below reflects these entries,
+        // so the applied index must cover them as well.
+        let mut max_replayed: Option<(u64, u64)> = None;
 
         while pos + 17 < buffer.len() {
             // Read entry index (8 bytes)
@@ -599,6 +602,15 @@ impl FileStateMachine {
             pos += 8;
             let expire_at_secs = if secs > 0 { Some(secs) } else { None };
 
+            // An INSERT always carries a value; a zero length is the empty value, not "no value".
+            let value = if op_code == WalOpCode::Insert && value.is_none() {
+                Some(Bytes::new())
+            } else {
+                value
+            };
+            if max_replayed.map_or(true, |(i, _)| _index > i) {
+                max_replayed = Some((_index, term));
+            }
             operations.push((op_code, key, value, term, expire_at_secs));
             replayed_count += 1;
         }
@@ -699,10 +711,19 @@ impl FileStateMachine {
             replayed_count, applied_count, skipped_expired
         );
 
-        // Unconditionally clear WAL after replay. load_data() already restored the last
-        // checkpoint; WAL is only the post-checkpoint delta. Even if 0 entries were applied
-        // (e.g. truncated tail only), the WAL is stale. Keeping it would cause infinite
-        // replay-of-the-same-truncated-entry on every subsequent startup.
+        // The recovered data contains every replayed entry: report them as applied.
+        if let Some((index, term)) = max_replayed {
+            if index > self.last_applied_index.load(Ordering::SeqCst) {
+                self.last_applied_index.store(index, Ordering::SeqCst);
+                self.last_applied_term.store(term, Ordering::SeqCst);
+            }
+        }
+
+        // Checkpoint (data, metadata, then clear WAL) instead of only clearing the WAL: the WAL was
+        // the only durable copy of the replayed entries. A truncated tail is dropped with it, so the
+        // same partial entry is not replayed again on the next startup.
+        self.persist_data_async().await?;
+        self.persist_metadata_async().await?;
         self.clear_wal_async().await?;
         debug!(
             "Cleared WAL after replay ({} operations applied)",
